@@ -317,8 +317,12 @@ func structStream(c *hx.Ctx, pureWorlds, richWorlds, nMatrix, nRandom, nRole, sh
 				name = "struct-selectors-vs-go-semantics"
 			}
 			// shrink: in-model cases against the model (no gc run needed), the others against gc
+			buildErr := strings.HasPrefix(whole, "=== BUILD-ERROR")
 			failing := func(cand *sCase) bool {
 				t, _ := single(cand)
+				if strings.HasPrefix(t.whole, "=== BUILD-ERROR") && !buildErr {
+					return false // the candidate is not a valid program (a local left unused)
+				}
 				if cand.inModel() && c.D != nil {
 					a, err := c.D.Ask(cand.modelLine())
 					if err != nil || !strings.HasPrefix(a, "ok ") {
